@@ -1,4 +1,5 @@
 """C19 — Times survive persistence and compare consistently (structural clauses)."""
+import re
 from ..core import BV, strip, walk, fmt_t
 from .. import lib, guards, intervals, census, terms
 
@@ -237,7 +238,33 @@ def run(F, R):
             if pos is not None:
                 s = nrm(pos, {1: "time"})
                 ok = "as_micros" in s and "try_from" in s and s.startswith("ok(")
-                R.check("C19-R3", "pos-arm", ok, s, "post-epoch arm is not i64::try_from(d.as_micros()).ok(): " + s)
+                known_bad = False
+                if not ok:
+                    # read the arm as an Option: every Some alternative must be as_micros() passed through checked
+                    # conversions only (any number of try_from(..)? steps); a cast on the way is the recognised wrong shape
+                    from .. import optnorm as _on, flow as _flow
+                    W_ = _flow.World([c])
+                    lv_ = _on.leaves(W_, to, pos)
+                    pays = [_on.canon(terms.render(to, _on.inline_all(W_, to, l_[1]), W_, {1: "time"})) for l_ in lv_ if l_[0] == "some"]
+                    if pays and not [l_ for l_ in lv_ if l_[0] == "other"]:
+                        def _inner(p_):
+                            n_ = 0
+                            while True:
+                                m2_ = re.fullmatch(r"ok\((.*)\)@OK", p_)
+                                if m2_:
+                                    p_ = m2_.group(1) + "@OK"      # `r.ok()?` is the Ok payload of r
+                                m_ = re.fullmatch(r"(?:[\w:<>, ]+::)?try_from(?:::<[^()]*>)?\((.*)\)@OK", p_)
+                                if not m_:
+                                    return n_, p_
+                                n_, p_ = n_ + 1, m_.group(1)
+                        res_ = [_inner(p_) for p_ in pays]
+                        ok = all(n_ >= 1 and re.fullmatch(r"as_micros\(.*\)", p_) for n_, p_ in res_)
+                        known_bad = any("cast<" in p_ for p_ in pays)
+                        s = " | ".join(pays)
+                if ok or known_bad:
+                    R.check("C19-R3", "pos-arm", ok, s, "post-epoch arm is not i64::try_from(d.as_micros()).ok(): " + s)
+                else:
+                    R.inconclusive("C19-R3", "pos-arm", "the post-epoch arm is computed in a way this rule does not read (%s)" % s[:160])
         # both arms must truncate with as_micros (toward the epoch), never adjust by +-1
         adj = [x for x in walk(to.trace_local(0)) if x[0] == "binop" and x[1] in ("Add", "Sub", "AddWithOverflow", "SubWithOverflow")]
         R.check("C19-R5", "storage-truncates", not adj and len([1 for _, t in to.calls() if lib.callee_is(t, "std::time::Duration::as_micros")]) == 2,
@@ -304,6 +331,23 @@ def run(F, R):
                     adj = optnorm.inline_all(_flow.World([c]), tr, wall[2][1])
                     iv = intervals.ival(c, adj)
                     side = "before-epoch" if vn == "Err" else "after-epoch"
+                    # the adjustment is the duration's nanoseconds modulo 1000, taken from the full value: a dividend that went
+                    # through a narrowing (`as u64`, `try_from(..).unwrap_or_default()`) is a different number for far-away times
+                    rems = [x for x in walk(adj) if x[0] == "binop" and x[1] == "Rem"]
+                    if len(rems) == 1:
+                        dv = strip(rems[0][2])
+                        while dv[0] == "cast" or (dv[0] == "call" and lib.norm(dv[1]).split("::")[-1] in ("from", "into") and dv[2]):
+                            inner_ = strip(dv[2] if dv[0] == "cast" else dv[2][0])
+                            if dv[0] == "cast" and not (inner_[0] == "call" and lib.norm(inner_[1]).endswith("subsec_nanos")):
+                                break       # a cast of anything wider than the sub-second part can lose bits
+                            dv = inner_
+                        exact = dv[0] == "call" and lib.norm(dv[1]).split("::")[-1] in ("as_nanos", "subsec_nanos")
+                        mod_iv = intervals.ival(c, rems[0][3])
+                        R.check("C19-R4", "remainder-of-full-nanoseconds:" + side, exact and mod_iv == (1000, 1000), "adjustment = nanoseconds % 1000 of the whole distance",
+                                "the sub-microsecond part is not (the distance's nanoseconds) %% 1000 taken from the full value: dividend %s, modulus %s" % (fmt_t(dv)[:100], mod_iv), lib.loc(tr, b))
+                    if iv is None:
+                        R.inconclusive("C19-R4", "zero-adjustment:" + side, "the interval evaluator cannot bound the adjustment %s" % fmt_t(adj)[:120])
+                        continue
                     R.check("C19-R4", "zero-adjustment:" + side, iv is not None and iv[0] <= 0 <= iv[1] and base == "self.wall",
                             "adjustment in ns ∈ %s" % (iv,),
                             "adjustment of the %s branch ranges over %s ns and never is 0: an already aligned time is moved again (not idempotent)" % (side, iv), lib.loc(tr, b))
@@ -324,7 +368,10 @@ def run(F, R):
             continue
         for s in census.panic_sites(bv):
             allowed = bv is frm and s["desc"] in ("api:time + duration", "api:time - duration")
-            if allowed:
+            pr_ = census.prove_neg_nonneg(bv, s)
+            if pr_:
+                R.holds("C19-R6", s["key"], "proved: " + pr_)
+            elif allowed:
                 R.holds("C19-R6", s["key"], "allowlisted: |micros| <= 2^63 us is representable by the i64-second SystemTime of supported targets")
             else:
                 R.violation("C19-R6", s["key"], "panic-capable site %s in %s" % (s["desc"], bv.name), s["loc"])
